@@ -45,6 +45,10 @@ class MyInt(int):
         return super().__new__(cls, v)
 
 
+class StrSub(str):
+    """a plain subclass of str: a scalar, not a sequence of characters"""
+
+
 class P1(PaneBase):
     a: int
     b: float = 1.0
@@ -130,7 +134,7 @@ TYPES = {
     'any': t.Any,
     'int': int, 'float': float, 'complex': complex, 'str': str, 'bytes': bytes, 'none': type(None), 'bool': bool,
     'lit': Literal['a', 1, None],
-    'enum_s': E1, 'enum_i': EI, 'myint': MyInt,
+    'enum_s': E1, 'enum_i': EI, 'myint': MyInt, 'strsub': StrSub,
     'list_int': t.List[int], 'seq_any': t.Sequence, 'set_int': t.Set[int],
     'tuple_var': t.Tuple[int, ...], 'tuple_fix': t.Tuple[int, float], 'tuple_lit': (int, str),
     'dict_si': t.Dict[str, int], 'dict_if': t.Dict[int, float], 'counter': collections.Counter,
@@ -194,7 +198,7 @@ SEQISH = {'any', 'list_int', 'seq_any', 'set_int', 'tuple_var', 'tuple_fix', 'tu
           'pt', 'pi'}
 TEXT = {'date', 'pattern', 'decimal', 'fraction'}      # text parsed by stdlib C/regex code: concretised vocabulary (td_text)
 # converters whose target constructor realises a symbolic int (complex(), int subclass __new__, float()): small ints
-SMALLINT = {'complex', 'cond_rng', 'range', 'myint', 'delegate'}
+SMALLINT = {'complex', 'cond_rng', 'range', 'myint', 'delegate', 'strsub'}
 NO_F = {'complex'}              # complex(symbolic float) realises without end
 
 _GEN = '''
